@@ -29,7 +29,7 @@ for f in "${list[@]}"; do
     if (cd /repo && CARGO_NET_OFFLINE=true cargo test --workspace --no-fail-fast --offline >"$TMP/tests.log" 2>&1); then tests="suite-passes"; else tests="SUITE-FAILS"; fi
   fi
   t0=$(date +%s.%N)
-  "$HERE/check" "$prop" --tier "$TIER" --evidence "$TMP/ev.json" --replay-dir "$TMP/replays" >"$TMP/out.txt" 2>&1
+  timeout 2400 "$HERE/check" "$prop" --tier "$TIER" --evidence "$TMP/ev.json" --replay-dir "$TMP/replays" >"$TMP/out.txt" 2>&1
   rc=$?
   t1=$(date +%s.%N)
   line="$(grep '^VIOLATION' "$TMP/out.txt" | head -1)"
